@@ -590,7 +590,7 @@ def run(ck):
     base = ck.seed * 1000003 + 67
     thorough = ck.thorough()
     n = 0
-    reps = 1 if not thorough else 6
+    reps = 1 if not thorough else 40
     for rep in range(reps):
         for role in ('initiator', 'responder'):
             for auth in ('psk', 'rsa'):
@@ -600,7 +600,7 @@ def run(ck):
                         continue
                     rng = ck.rng('imp', n)
                     impostor_case(ck, base + n, role, auth, vi, rng)
-    for j in range(4 if not thorough else 40):
+    for j in range(4 if not thorough else 200):
         n += 1
         if ck.mine(n):
             skip_auth_case(ck, base + n, j, ck.rng('skip', n))
@@ -616,7 +616,7 @@ def run(ck):
                         mitm_case(ck, base + n, conf, which, k, ck.rng('mitm', n))
     # altered IKE_AUTH messages (bit flips: the ICV must stop them)
     for which in (2, 3):
-        for j in range(24 if not thorough else 200):
+        for j in range(24 if not thorough else 4000):
             n += 1
             if not ck.mine(n):
                 continue
